@@ -8,6 +8,8 @@
 (*        branch are recorded); fk = "bare" | "pairs" | "ctx"              *)
 (*   [e |-> "reach", ch, N, fk, reach]        values that were filled   *)
 (*        into the accumulator (recording proxy) by FillComputeSeq         *)
+(*        (also recorded as they were at the moment they were yielded if   *)
+(*        that differs from what they are when the driver has finished)    *)
 (* Whatever the driver and bufsize, the results must be ChainSem and the   *)
 (* accumulator must have received Reach.  A run that raised is recorded    *)
 (* with another e and matched by nothing.                                  *)
@@ -17,7 +19,9 @@ EXTENDS FillSem, Json, IOUtils
 Trace == JsonDeserialize(IOEnv.TRACE_FILE)
 VARIABLE i
 ToSet(sq) == {sq[k] : k \in 1..Len(sq)}
-NormVal(v) == [d |-> v.d, c |-> ToSet(v.c), h |-> v.h]
+\* vc: the content of context.variable (name, type, compose list, descriptions kept under a type)
+NormVal(v) == [d |-> v.d, c |-> ToSet(v.c), h |-> v.h,
+               vc |-> [name |-> v.vc.name, type |-> v.vc.type, compose |-> v.vc.compose, kept |-> ToSet(v.vc.kept)]]
 NormOut(o) == [k \in 1..Len(o) |-> NormVal(o[k])]
 Ok(r) == \/ r.e = "out" /\ NormOut(r.out) = ChainSem(r.ch, FlowOf(r.N, r.fk))
          \/ r.e = "reach" /\ NormOut(r.reach) = Reach(r.ch, FlowOf(r.N, r.fk))
